@@ -6330,7 +6330,17 @@ class PyCdlib:
         if rec.inode is None:
             raise pycdlibexception.PyCdlibInvalidInput('File has no data')
 
-        return pycdlibio.PyCdlibIO(rec.inode, self.logical_block_size)
+        # A very large file is recorded as several extents, each with a
+        # directory record and an Inode of its own.
+        more_inodes = []
+        if isinstance(rec, dr.DirectoryRecord):
+            more = rec.data_continuation
+            while more is not None:
+                if more.inode is not None:
+                    more_inodes.append(more.inode)
+                more = more.data_continuation
+
+        return pycdlibio.PyCdlibIO(rec.inode, self.logical_block_size, more_inodes)
 
     def has_rock_ridge(self):
         # type: () -> bool
